@@ -216,7 +216,7 @@ AwayFromBoundary(g) == {c \in Interior(g) : \A a \in Axes(g) : c[a] > 1 /\ c[a] 
 \* unit limiter on uniform grids: upwind operator minus the correction is the central operator
 C05_TvdUnit(g, Mup, Mconv, tvd1, phi) ==
   (\A a \in Axes(g) : UniformAxis(g, a)) =>
-     \A P \in AwayFromBoundary(g) :
+     \A P \in Interior(g) :
         RSub(MApplyRow(Mup, phi, P), tvd1[P]) = MApplyRow(Mconv, phi, P)
 VecZero(g, v) == \A c \in AllCells(g) : RIsZero(v[c])
 VecFinite(g, v) == \A c \in AllCells(g) : ~IsNaN(v[c])
